@@ -230,14 +230,14 @@ class Env:
 # one case
 
 def mkcase(sub, tool, args, files=(), paths=("label",), plain=(), stdin=None, expect="mirror", oargs=None,
-           nfiles=None):
+           nfiles=None, fullout=False):
     """files: (name, fmt, content, state) state in ok|corrupt|missing -- compressed dir gets the blob, the mirror
     gets the content (nothing for corrupt/missing).  plain: (name, content) present in both directories.
     stdin: (fmt, content).  expect: mirror | status2 | status2+stdout.  oargs: oracle argv if different."""
     return {"sub": sub, "tool": tool, "args": list(args), "files": [list(f) for f in files], "paths": list(paths),
             "plain": [list(p) for p in plain], "stdin": list(stdin) if stdin else None, "expect": expect,
             "oargs": list(oargs) if oargs is not None else None,
-            "nfiles": nfiles if nfiles is not None else len(files)}
+            "nfiles": nfiles if nfiles is not None else len(files), "fullout": fullout}      # fullout: standard output is /dev/full (every write fails); only the status is compared
 
 
 # Reproducible differences between the unchanged scripts and grep/diff that are recorded under fixed keys (so that
@@ -446,6 +446,11 @@ def run_case(env, c, verbose=False):
                 e = dict(e); e.update(extra_env)
             for timeout in (30, 300):
                 try:
+                    if c.get("fullout"):
+                        with open("/dev/full", "wb") as fo:
+                            kw = {"stdin": subprocess.DEVNULL} if inp is None else {"input": inp}
+                            r = subprocess.run(cmd, cwd=cwd, env=e, stdout=fo, stderr=subprocess.PIPE, timeout=timeout, **kw)
+                        return r.returncode, b"", r.stderr
                     if inp is None:
                         r = subprocess.run(cmd, cwd=cwd, env=e, stdin=subprocess.DEVNULL, capture_output=True,
                                            timeout=timeout)
@@ -482,6 +487,10 @@ def run_case(env, c, verbose=False):
             if rc == -999:
                 fails.append(("%s:hang:%s" % (tool, tag), "no exit within 300 s"))
                 continue
+            if c.get("fullout"):
+                # an environment failure, not one of the property's inputs: the statuses must agree as verdicts (0, 1, error);
+                # which error number a failing write turns into is grep's / sed's business (the sed fallback ends with sed's 4)
+                rc = 2 if rc >= 2 else rc; orc = 2 if orc is not None and orc >= 2 else orc
             if c["expect"] == "mirror":
                 if (rc, out) != (orc, oout):
                     if family == "grep":
@@ -902,7 +911,17 @@ def grid_grep_sentinel(env, tier):
         yield mkcase("sentinel-cmp", "xzcmp", [fb[0], dash(fa[0])], [fa, fb])
 
 
-GRIDS = [grid_grep_sentinel, grid_grep_large, grid_grep_optpairs, grid_diff_pairs, grid_grep_formats, grid_grep_badops, grid_diff_options, grid_grep_longopts,
+def grid_grep_fullout(env, tier):
+    """Standard output that cannot be written to: the exit status must be grep's (2 when something had to be printed)."""
+    allf = [("f1.xz", "xz", "F1", "ok"), ("f2.xz", "xz", "F2", "ok")]
+    for opts in ([], ["-l"], ["-L"], ["-c"], ["-q"], ["-n"], ["-H"], ["-h"], ["-o"], ["-lq"], ["-A1"]):
+        for pat in ("a", "zzz"):
+            for k in (1, 2):
+                yield mkcase("fullout", "xzgrep", opts + [pat] + [f[0] for f in allf[:k]], allf[:k], ("label", "sed") if tier == "thorough" or k == 2 else ("label",), fullout=True)
+            yield mkcase("fullout", "xzgrep", opts + [pat], (), ("label",), stdin=("xz", "F1"), fullout=True)
+
+
+GRIDS = [grid_grep_sentinel, grid_grep_fullout, grid_grep_large, grid_grep_optpairs, grid_diff_pairs, grid_grep_formats, grid_grep_badops, grid_diff_options, grid_grep_longopts,
          grid_grep_options, grid_grep_bundles, grid_grep_patterns, grid_grep_patfiles, grid_diff_single,
          grid_grep_names, grid_diff_names]
 
